@@ -372,27 +372,48 @@ def valued(vname, shape):
         return False, f"raised {type(ex).__name__}: {ex}"
 # concrete magnitudes: SymPy evaluates Min/Max/comparisons of NUMERIC operands eagerly (through the library's own comparison hook), which
 # symbolic magnitudes never trigger.  Inequivalent dimensions must still be refused, equivalent ones accepted with the right value.
-def eager():
+def eager(only=None):
+    """[(label, text)] of the failing cases; operands are numeric, so SymPy tries to order them while Min/Max is built"""
     bad = []
-    five_m, three_s, two_km = (lambda: Quantity(5 * units.meter)), (lambda: Quantity(3 * units.second)), (lambda: Quantity(2 * units.kilometer))
-    for label, mk in (("Max(5 m, 3 s)", lambda: sp.Max(five_m(), three_s())), ("Min(5 m, 3 s)", lambda: sp.Min(five_m(), three_s())),
-                      ("Max(3 s, 5 m)", lambda: sp.Max(three_s(), five_m())), ("Max(5 m, 3 s) + 1 m", lambda: sp.Max(five_m(), three_s()) + Quantity(1 * units.meter)),
-                      ("Max(5 m, 3 s, 7 m)", lambda: sp.Max(five_m(), three_s(), Quantity(7 * units.meter)))):
+    Q = Quantity
+    m, sec, km = units.meter, units.second, units.kilometer
+    refuse = [("Max(5 m, 3 s)", lambda: sp.Max(Q(5 * m), Q(3 * sec))), ("Min(5 m, 3 s)", lambda: sp.Min(Q(5 * m), Q(3 * sec))),
+              ("Max(3 s, 5 m)", lambda: sp.Max(Q(3 * sec), Q(5 * m))), ("Max(5 m, 3 s) + 1 m", lambda: sp.Max(Q(5 * m), Q(3 * sec)) + Q(1 * m)),
+              ("Max(5 m, 3 s, 7 m)", lambda: sp.Max(Q(5 * m), Q(3 * sec), Q(7 * m))),
+              # operands of opposite sign: SymPy can order them from the signs alone
+              ("Max(-5 m, 3 s)", lambda: sp.Max(Q(-5 * m), Q(3 * sec))), ("Min(-5 m, 3 s)", lambda: sp.Min(Q(-5 * m), Q(3 * sec))),
+              ("Max(3 s, -5 m)", lambda: sp.Max(Q(3 * sec), Q(-5 * m))), ("Min(3 s, -5 m)", lambda: sp.Min(Q(3 * sec), Q(-5 * m))),
+              ("Max(-5 m, 3 s, -7 m) + 1 m", lambda: sp.Max(Q(-5 * m), Q(3 * sec), Q(-7 * m)) + Q(1 * m)),
+              ("Max(-5 m, Quantity(2))", lambda: sp.Max(Q(-5 * m), Q(2))), ("Min(5 m, Quantity(-2))", lambda: sp.Min(Q(5 * m), Q(-2))),
+              ("Abs(Max(-5 m, 3 s))", lambda: sp.Abs(sp.Max(Q(-5 * m), Q(3 * sec)))), ("Max(-5 m, 3 s)**2", lambda: sp.Max(Q(-5 * m), Q(3 * sec))**2),
+              # ... and an operand that is not a quantity object: a bare number or a unit expression
+              ("Max(5 m, 3)", lambda: sp.Max(Q(5 * m), 3)), ("Max(5 m, 3*second)", lambda: sp.Max(Q(5 * m), 3 * sec)),
+              ("Max(-5 m, 3)", lambda: sp.Max(Q(-5 * m), 3)), ("Min(-5 m, 3)", lambda: sp.Min(Q(-5 * m), 3)), ("Max(3, -5 m)", lambda: sp.Max(3, Q(-5 * m))),
+              ("Max(-5 m, 3*second)", lambda: sp.Max(Q(-5 * m), 3 * sec)), ("Min(-5 m, 3*second)", lambda: sp.Min(Q(-5 * m), 3 * sec)),
+              ("Min(5 m, -3)", lambda: sp.Min(Q(5 * m), -3))]
+    for label, mk in refuse:
+        if only is not None and label != only:
+            continue
         try:
             r = Quantity(mk())
-            bad.append(f"{label}: accepted with scale {r.scale_factor}, dimension {r.dimension} (terms of a min/max with inequivalent dimensions must be refused)")
+            bad.append((label, f"{label}: accepted with scale {r.scale_factor}, dimension {r.dimension} (terms of a min/max with inequivalent dimensions must be refused)"))
         except ValueError:
             pass
         except Exception as ex:
-            bad.append(f"{label}: raised {type(ex).__name__}: {ex}")
-    for label, mk, want in (("Max(5 m, 2 km)", lambda: sp.Max(five_m(), two_km()), 2000), ("Min(5 m, 2 km)", lambda: sp.Min(five_m(), two_km()), 5),
-                            ("Max(0 m, 3 s)", lambda: sp.Max(Quantity(0 * units.meter), three_s()), 3)):
+            bad.append((label, f"{label}: raised {type(ex).__name__}: {ex}"))
+    valued_ = [("Max(5 m, 2 km)", lambda: sp.Max(Q(5 * m), Q(2 * km)), 2000), ("Min(5 m, 2 km)", lambda: sp.Min(Q(5 * m), Q(2 * km)), 5),
+               ("Max(0 m, 3 s)", lambda: sp.Max(Q(0 * m), Q(3 * sec)), 3), ("Max(-5 m, 2 km)", lambda: sp.Max(Q(-5 * m), Q(2 * km)), 2000),
+               ("Min(-5 m, 2 km)", lambda: sp.Min(Q(-5 * m), Q(2 * km)), -5), ("Min(0 m, -3 s)", lambda: sp.Min(Q(0 * m), Q(-3 * sec)), -3),
+               ("Max(-5 m, 30 cm)", lambda: sp.Max(Q(-5 * m), 30 * units.centimeter), sp.Rational(3, 10)), ("Min(-5, 3)", lambda: sp.Min(Q(-5), 3), -5)]
+    for label, mk, want in valued_:
+        if only is not None and label != only:
+            continue
         try:
             r = Quantity(mk())
             if abs(sp.N(r.scale_factor) - want) > 1e-9:
-                bad.append(f"{label}: scale {r.scale_factor}, expected {want}")
+                bad.append((label, f"{label}: scale {r.scale_factor}, expected {want}"))
         except Exception as ex:
-            bad.append(f"{label}: raised {type(ex).__name__}: {ex}")
+            bad.append((label, f"{label}: raised {type(ex).__name__}: {ex}"))
     return bad
 # prefixes are leaves of the expression grammar too: number * prefix * unit, decimal and binary
 def prefixed():
@@ -453,10 +474,10 @@ def concrete_specials(ctx):
                 ctx.violation(f"C05:special-value:{vname}:{shape}", f"{shape} with q = {vname} m: {text}; the scale factor must be the value of the expression",
                               REPLAY_SPECIAL.replace("ok, text = special(@VNAME@, @SHAPE@)", "ok, text = valued(@VNAME@, @SHAPE@)").replace("@VNAME@", repr(vname)).replace("@SHAPE@", repr(shape)))
     bade = ns["eager"]()
-    if bade:
-        ctx.violation("C05:eager-min-max", "; ".join(bade[:4]) + f" ({len(bade)} cases)", SPECIAL_SRC + "\nimport sys\nb = eager()\nprint(b)\nif b:\n    print('REPRODUCED'); sys.exit(1)\n")
-    else:
-        ctx.ob("numeric Min/Max operands (eagerly evaluated by SymPy): inequivalent refused, equivalent valued", "discharged", nontrivial=False)
+    for label, text in bade:
+        ctx.violation(f"C05:eager-min-max:{label}", text, SPECIAL_SRC + f"\nimport sys\nb = eager(only={label!r})\nprint(b)\nif b:\n    print('REPRODUCED'); sys.exit(1)\n")
+    if not bade:
+        ctx.ob("numeric Min/Max operands (eagerly evaluated by SymPy; same and opposite signs; quantity objects, bare numbers, unit expressions): inequivalent refused, equivalent valued", "discharged", nontrivial=False)
     badp = ns["prefixed"]()
     if badp:
         ctx.violation("C05:prefix-leaves", "; ".join(badp[:4]) + f" ({len(badp)} cases)", SPECIAL_SRC + "\nimport sys\nb = prefixed()\nprint(b)\nif b:\n    print('REPRODUCED'); sys.exit(1)\n")
